@@ -91,6 +91,21 @@ def orphan_audits(ctx):
     return [a for a in AUDITED if (a[0], a[1]) not in present]
 
 
+def _stored_option_payload(den):
+    import facts as _f
+    x = _f.strip_refs(den)
+    if not (x[0] == 'field' and str(x[2]) == '0'):
+        return False
+    d = _f.strip_refs(x[1])
+    if not (d[0] == 'downcast' and d[2] == 'Some'):
+        return False
+    inner = _f.strip_refs(d[1])
+    while inner[0] in ('field', 'deref', 'cidx', 'index'):
+        inner = _f.strip_refs(inner[1])
+    # an element handed out by an iterator (`next(..)` item) or read from a container, not a value computed here
+    return inner[0] == 'downcast' and inner[2] == 'Some' and _f.strip_refs(inner[1])[0] == 'call' and _f.short(_f.strip_refs(inner[1])[1]) in ('next', 'get', 'pop')
+
+
 def run(ctx, pid, rule_prefix=None):
     """emit the division obligations owned by property pid"""
     rule = '%s.division-guard' % pid
@@ -137,6 +152,10 @@ def run(ctx, pid, rule_prefix=None):
                             # no audit applies: the audited computation was moved, its invariant is not re-established here
                             ctx.anchor_lost(rule, 'audited division of %s (divisor class %s)' % (moved[0][0], dclass),
                                             'a division by `%s` now sits in %s, where the audit (%s) cannot be matched' % (info[:60], base, moved[0][2][:80]))
+                        elif _stored_option_payload(dv['den']):
+                            # the divisor is the payload of an `Option` taken out of a collection: whether it can be zero was
+                            # decided where that collection was filled (`(total > 0.0).then_some(total)`), out of this rule's sight
+                            ctx.anchor_lost(rule, 'division in %s: the divisor is a stored Option payload' % base, 'divisor `%s`' % info[:80])
                         else:
                             ctx.bad(rule, key, text, site,
                                     'divisor `%s` is neither tested against zero on a dominating edge nor audited' % info[:160],
